@@ -16,9 +16,10 @@ CONSTANTS
   BurstSizes = {1, 2}
   PskIds = {"k1", "k2"}
   PskValues = {"none", "a", "b"}
-  Deviations = {"F12"}
+  Deviations = {"F12", "F14"}
   MaxApps = 30
   Depth = 60
+  BootSize = 0
   WProgress = 60
   WPropose = 45
   WCommit = 40
